@@ -212,6 +212,9 @@ type c12Config struct {
 
 func c12Setup(t *rapid.T, cfg c12Config) *c12Run {
 	n := rapid.IntRange(3, cfg.maxN).Draw(t, "groupSize")
+	if rapid.IntRange(0, 9).Draw(t, "bigGroup") == 0 {
+		n = 7 // three corrupt seats possible (three-member collusion scenarios)
+	}
 	maxT := (n - 1) / 2
 	// bias to the largest supported dishonest threshold
 	thr := maxT
@@ -318,6 +321,21 @@ func c12DrawScenario(t *rapid.T, run *c12Run) {
 		if m.corrupt {
 			corrupt = append(corrupt, m)
 		}
+	}
+	if len(corrupt) >= 3 && rapid.IntRange(0, 1).Draw(t, "scenario3") == 0 {
+		// two members of QUAL fail in phase 7 (two reconstructions) and a third
+		// corrupt member reveals a wrong key for one of them only, so the two
+		// reconstructions interpolate over DIFFERENT sets of revealing members
+		perm := rapid.Permutation(corrupt).Draw(t, "scenarioRoles3")
+		a, b, c := perm[0], perm[1], perm[2]
+		for _, m := range []*c12Member{a, b} {
+			m.script = map[string]string{"p7": rapid.SampledFrom([]string{"silent", "points-random"}).Draw(t, fmt.Sprintf("scn3P7-%d", m.idx)), "p8": "silent", "p10": "silent"}
+		}
+		c.script = map[string]string{"p10": rapid.SampledFrom([]string{"reveal-wrong-key-peer", "reveal-omit-peer"}).Draw(t, "scn3Reveal")}
+		c.scriptPeer = a.idx
+		run.note("scenario two-reconstructions-different-revealers m%d m%d, m%d reveals badly for m%d", a.idx, b.idx, c.idx, a.idx)
+		run.fired["scenario:two-reconstructions-different-revealers"] = true
+		return
 	}
 	if len(corrupt) < 2 || rapid.IntRange(0, 3).Draw(t, "scenario") != 0 {
 		return
